@@ -6,6 +6,7 @@ import (
 	"math/big"
 	"regexp"
 	"strconv"
+	"strings"
 	"time"
 
 	"github.com/shopspring/decimal"
@@ -142,7 +143,18 @@ func c15Int(nstr string) core.Result {
 		}
 	}
 	// the decimal spelling coerces to the number it spells
-	for _, sp := range []string{n.String(), "+" + abs.String()} {
+	sign := ""
+	if n.Sign() < 0 {
+		sign = "-"
+	}
+	// decimal spellings: canonical, explicit plus, zero-padded (decimal, never octal), with a fraction / exponent
+	for _, sp := range []string{n.String(), "+" + abs.String(), sign + "0" + abs.String(), sign + "00" + abs.String(), n.String() + ".0", sign + "0" + abs.String() + ".50e0"} {
+		if strings.HasSuffix(sp, ".50e0") {
+			// n + 0.5 (or n - 0.5): only asserted where exactly representable
+			if abs.Cmp(big.NewInt(1<<52)) >= 0 {
+				continue
+			}
+		}
 		want, err := strconv.ParseFloat(sp, 64)
 		if err != nil {
 			continue
